@@ -2,8 +2,9 @@ from common import *
 from regcommon import *
 import C01, C02
 ID = 'C05'
-TRANSLATORS = []
-COQ_TARGETS = ['Properties_C05.vo']
+TRANSLATORS = [('consts2coq.py', ['coq/Gen/Consts.v'])]
+GEN_FILES = ['coq/Gen/Consts.v']
+COQ_TARGETS = ['Properties_C05.vo', 'Proof/ConstsReg.vo']
 HARNESS_MODS = ['reg']
 RULE = ('reg.run cases (see C01): histories of 50-400 checked operations (typed set, bit set, bit clear, block write, sanitise) over generated well-formed tables with operands biased to the constraint '
         'boundaries and block writes overlapping 1-3 registers partially; out-of-band corruption (random words, NaN halves, single-word damage of multi-word registers) before sanitise on tables whose registers '
